@@ -32,7 +32,7 @@ def pool(cls) -> List[dw.W]:
 def ops(npool: int) -> List[Tuple]:
     res: List[Tuple] = []
     for i in range(npool):
-        res += [("get_label", i), ("get_class_c", i), ("contains_c", i), ("is_empty", i), ("is_empty_l", i), ("set_empty", i)]
+        res += [("get_label", i), ("get_class_c", i), ("contains_c", i), ("is_empty", i), ("is_empty_l", i), ("set_empty", i), ("is_empty_x", i)]
     for l in LABELS:
         res += [("get_class_l", l), ("contains_l", l), ("get_label_l", l)]
     return res
@@ -106,6 +106,21 @@ def step(db, ref: Ref, P: List[dw.W], op: Tuple) -> Optional[str]:
         ref.empty[i] = want
         if got != ("ok", want):
             return f"is_empty(class {x}) = {got}, the class's own answer is {want}"
+    elif kind == "is_empty_x":
+        # the class's own emptiness computation is interrupted (raises) during this query;
+        # nothing may be cached from it, so the state must be the one before the call
+        i = ref.index(P[x])
+        if i is None or ref.empty[i] is not None:
+            return None  # not enabled: unknown class, or emptiness already cached (no computation to interrupt)
+        dw.INTERRUPT_IS_EMPTY[0] = True
+        try:
+            got = call(db.is_empty, P[x], i)
+        finally:
+            armed, dw.INTERRUPT_IS_EMPTY[0] = dw.INTERRUPT_IS_EMPTY[0], False
+        if armed:
+            return f"is_empty(class {x}) with no cached answer did not ask the class"
+        if got != ("exc", "InterruptedComputation"):
+            return f"is_empty(class {x}) = {got} although the class's computation was interrupted"
     elif kind == "set_empty":
         i = ref.index(P[x])
         if i is None:
@@ -184,6 +199,7 @@ def site_of(op) -> str:
         "is_empty": "ClassDB.is_empty",
         "is_empty_l": "ClassDB.is_empty",
         "set_empty": "ClassDB.set_empty",
+        "is_empty_x": "ClassDB.is_empty",
     }[op[0]]
 
 
@@ -248,6 +264,60 @@ def _worker(arg) -> Acc:
     return acc
 
 
+def roundtrip_family() -> List[Tuple[str, Tuple[str, ...], str]]:
+    """(prefix, patterns, alphabet): encoded lengths from a few bytes to ~70, repetitive and not."""
+    fam = []
+    for n in range(0, 41):
+        fam.append(("a" * n, ("b",), "ab"))
+        fam.append((("ab" * n)[:n], (), "ab"))
+        fam.append((("aab" * n)[:n], ("bbb", "aaaa"), "ab"))
+    return fam
+
+
+def _roundtrip_worker(cls_name: str) -> Acc:
+    """E3: every class of the family through a fresh database and through one shared database:
+    get_label, get_class by label and by class, membership; compressed keys must decode to an
+    equal class."""
+    from comb_spec_searcher.class_db import ClassDB
+
+    cls = {"WK": dw.WK, "WB": dw.WB}[cls_name]
+    acc = Acc()
+    shared = ClassDB(cls)
+    ref: List[Any] = []
+    for pre, pats, al in roundtrip_family():
+        c = cls(pre, pats, al)
+        payload = {"cls": cls_name, "roundtrip": [pre, list(pats), al]}
+        for db in (ClassDB(cls), shared):
+            expect = len(db.comb_class_list)  # every class of the family is new to the database
+            acc.count("traces")
+            acc.count("evaluations")
+            try:
+                l = db.get_label(c)
+                back = db.get_class(l)
+                again = db.get_label(cls(pre, pats, al))
+                ok = l == expect and back == c and again == l and (c in db) and db.get_class(c) == c
+                stored = db.comb_class_list[l]
+                ok = ok and (db._decompress(stored) if isinstance(stored, bytes) else stored) == c
+            except Exception as e:  # noqa: BLE001
+                acc.violation("round-trip-raises", "ClassDB._decompress", f"{cls_name}:len{len(c.to_bytes())}",
+                              f"class {c.sid()} (encoding of {len(c.to_bytes())} bytes): {type(e).__name__}: {str(e)[:120]}", payload)
+                break
+            if not ok:
+                acc.violation("disagrees-with-reference", "ClassDB.get_class", f"{cls_name}:len{len(c.to_bytes())}",
+                              f"class {c.sid()} (encoding of {len(c.to_bytes())} bytes): label {l} (expected {expect}), read back {back!r}", payload)
+                break
+        else:
+            acc.nt((cls_name, "rt", pre, pats))
+        ref.append(c)
+    return acc
+
+
+def _task(arg) -> Acc:
+    if arg[0] == "roundtrip":
+        return _roundtrip_worker(arg[1])
+    return _worker(arg)
+
+
 def self_test() -> None:
     r = Ref()
     P = pool(dw.W)
@@ -261,21 +331,26 @@ def run(ctx: Ctx) -> None:
     self_test()
     depth = 10 if ctx.quick else 14
     ctx.rule = (
-        "breadth-first search over histories of get_label/get_class/in/is_empty/set_empty over a pool of 5 class objects "
+        "breadth-first search over histories of get_label/get_class/in/is_empty/set_empty/interrupted is_empty over a pool of 5 class objects "
         "(4 distinct, 2 equal, 1 empty) and labels -2..6, for the plain and the byte-compressed class type, each also with colliding hashes, deduplicated on "
         "the three backing lists; every transition compared with a list-backed reference and invariants evaluated in every "
-        "state; non-trivial = distinct database states"
+        "state; plus every class of a 123-class family with encodings of 7..70 bytes (compact and JSON encodings) through a fresh and a shared database; "
+        "non-trivial = distinct database states and round-tripped classes"
     )
     ctx.assumptions = ["callers pass set_empty the class's true emptiness (as the searcher does)",
                        "is_empty is only asked of classes that already have a label"]
     ctx.bounds = {"max_depth": depth, "pool": 5, "labels": LABELS}
-    ctx.pmap(_worker, [("W", depth), ("WB", depth), ("WC", depth), ("WCB", depth)])
+    ctx.pmap(_task, [("W", depth), ("WB", depth), ("WC", depth), ("WCB", depth), ("roundtrip", "WK"), ("roundtrip", "WB")])
+    ctx.bounds["roundtrip_family"] = len(roundtrip_family())
     for k in ("closed_W", "closed_WB", "closed_WC", "closed_WCB"):
         if not ctx.acc.notes.get(k):
             ctx.acc.cap(f"state space not closed at depth {depth} ({k})")
 
 
 def replay(acc: Acc, payload: dict) -> None:
+    if "roundtrip" in payload:
+        acc.merge(_roundtrip_worker(payload["cls"]))
+        return
     cls = {"W": dw.W, "WB": dw.WB, "WC": dw.WC, "WCB": dw.WCB}[payload["cls"]]
     P = pool(cls)
     hist = [tuple(o) for o in payload["history"]]
